@@ -11,5 +11,18 @@ for d in glob.glob(ROOT + '/harness/shims/*'):
     for f in glob.glob(d + '/*.go'):
         rep[REPO + '/' + pkg + '/zz_verif_' + os.path.basename(f)] = f
 os.makedirs(ROOT + '/build', exist_ok=True)
+# the adapter shim builds the value Main builds: when the adapter's methods have pointer receivers in the tree under
+# check (a refactoring that leaves behaviour alone), the shim takes its address as Main then does
+import re
+try:
+    om = open(REPO + '/omniwitness/omniwitness.go').read()
+    key = REPO + '/omniwitness/zz_verif_export.go'
+    if key in rep and re.search(r'func \(\w+ \*witnessAdapter\)', om):
+        src = open(rep[key]).read().replace('return witnessAdapter{w: w}', 'return &witnessAdapter{w: w}')
+        adapted = ROOT + '/build/shim-omniwitness-export-%d.go' % os.getppid()
+        open(adapted, 'w').write(src)
+        rep[key] = adapted
+except OSError:
+    pass
 out = sys.argv[1] if len(sys.argv) > 1 else ROOT + '/build/overlay.json'
 json.dump({'Replace': rep}, open(out, 'w'), indent=1)
